@@ -8,21 +8,17 @@ open SqlObjVerif.PyDdl hiding Str isUpperC
 open SqlObjVerif.PyDdl.Extracted
 
 set_option maxHeartbeats 2000000 in
-theorem str_type (n : Nat) (T : Tables) (st : Style) (tb : Str) (c0 : Val) (un : Bool) (len : Nat) (v : Option Bool)
+theorem str_type_len (n : Nat) (T : Tables) (st : Style) (tb : Str) (c0 : Val) (un : Bool) (len : Nat) (v : Option Bool)
     (d : Dialect) (c : Caps)
-    (name : Str) (dbn : Option Str) (nn : Bool) (uq : Option Bool) (alt : Bool) (ds : Option Str) (db : Str) :
+    (name : Str) (dbn : Option Str) (nn : Bool) (uq : Option Bool) (alt : Bool) (ds : Option Str) (db : Str)
+    (hl : ¬ len = 0) :
     callN prog ddlI (n + 4) (.meth (clsOf (.str un len v)) (tyM d))
         [colV T st tb (connDuring d c c0) ⟨name, dbn, .str un len v, nn, uq, alt, ds⟩] =
       tyRes (typePieces TX d c db (.str un len v)) := by
   obtain ⟨vc, hvc⟩ : ∃ vc, varcharEff len v true = vc := ⟨_, rfl⟩
   obtain ⟨mi, mx⟩ := c
-  by_cases hl : len = 0
-  · subst hl
-    cases d <;> cases un <;>
-      pyxc [tyM, connDuring, typePieces, strType, strSqlType, Ddl.Extracted.tables, joinStr, handle] <;>
-      (cases mx <;> rfl)
-  · have h1 : ((len : Int) != 0) = true := by simp; omega
-    cases vc <;> cases d <;> cases un <;>
-      pyxc [tyM, connDuring, typePieces, strType, strSqlType, Ddl.Extracted.tables, joinStr, handle, wordParen]
+  have h1 : ((len : Int) != 0) = true := by simp; omega
+  cases vc <;> cases d <;> cases un <;>
+    pyxc [tyM, connDuring, typePieces, strType, strSqlType, Ddl.Extracted.tables, joinStr, handle, wordParen]
 
 end SqlObjVerif.DdlX
